@@ -239,7 +239,10 @@ func Automaton(c *core.Ctx, rule string, strict bool) {
 			switch {
 			case got.panic && !(cmd == "exec" && !hold):
 				c.Failf(rule, key, pos, "state %s, command %s: barrierStatus panics on a stream every master can emit (reference %s)", name(state), label, show(ref))
-			case marker && !got.panic && !dropped(got.next) && !(cmd == "exec" && !hold):
+			case marker && !got.panic && !dropped(got.next):
+				// an EXEC outside a hold does reach this tool: the idle ticker may flush (and
+				// checkpoint) in the middle of a source transaction, so a resumed stream can
+				// start after the MULTI; the marker must still be swallowed
 				c.Failf(rule, key, pos, "state %s, command %s: next state %s is not a marker state, so the sender caches the source's %s and forwards it to the target (reference %s)", name(state), label, name(got.next), strings.ToUpper(label), show(ref))
 			case !marker && !got.panic && dropped(got.next):
 				c.Failf(rule, key, pos, "state %s, command %s: next state %s makes the sender discard the command although it is not a MULTI/EXEC marker (reference %s)", name(state), label, name(got.next), show(ref))
